@@ -10,6 +10,9 @@ def step (line : String) : String :=
   match CpModel.Proto.fields line with
   | "B" :: _ => CpModel.WsgiBoundaryProto.step line
   | "R" :: _ => CpModel.WsgiBoundaryProto.step line
-  | _ => CpModel.PipelineProto.step line
+  | toks =>
+    -- `genx=<page>:<class>,…` (C01 fault plans): the class of what a *streamed* generator raises mid-stream; the
+    -- model has one answer for every `Exception` subclass there, so the token is dropped
+    CpModel.PipelineProto.step (" ".intercalate (toks.filter fun t => !t.startsWith "genx="))
 
 def main : IO Unit := CpModel.Proto.runDriver step
